@@ -42,6 +42,10 @@ class Facts:
                     f.x['path'] = name
                     f.body.owner = name
                     self.fns[name] = f
+        try:
+            self.mono = monomorphise_private_generics(self)
+        except Exception as e:
+            self.mono_error = '%s: %s' % (type(e).__name__, e)
         self.consts = {x['path']: x['val'] for x in self.other_items if 'val' in x}
         CONST_VALUES.update(self.consts)
         for f in self.fns.values():
@@ -64,6 +68,10 @@ class Facts:
             devirt_provided_forwarders(self)
         except Exception as e:
             self.devirt_error = '%s: %s' % (type(e).__name__, e)
+        try:
+            self.ctor_inlined = inline_trivial_constructors(self)
+        except Exception as e:
+            self.ctor_error = '%s: %s' % (type(e).__name__, e)
         self.sroa = []
         try:
             sroa_private_params(self)
@@ -1798,6 +1806,27 @@ def _flatten_mir(mir, flat):
         for st in b['stmts']:
             if st['k'] == 'assign' and not st['lhs']['p'] and st['rv']['k'] == 'agg' and st['rv'].get('agg') == 'adt' and st['rv'].get('adt') in flat:
                 agg_def.setdefault(st['lhs']['l'], []).append(st)
+    # ... also when the literal travels through plain copies of whole locals (`_14 = copy _37; (*self).f = move _14`)
+    copies = {}
+    ndefs = defaultdict(int)
+    for b in blocks:
+        for st in b['stmts']:
+            if st['k'] == 'assign' and not st['lhs']['p']:
+                ndefs[st['lhs']['l']] += 1
+                if st['rv']['k'] == 'use':
+                    sp = st['rv']['op'].get('move') or st['rv']['op'].get('copy')
+                    if sp is not None and not sp['p']:
+                        copies[st['lhs']['l']] = sp['l']
+        t_ = b['term']
+        if t_['k'] == 'call' and t_.get('dest') and not t_['dest']['p']:
+            ndefs[t_['dest']['l']] += 1
+
+    def origin(l):
+        seen = 0
+        while l in copies and ndefs[l] == 1 and l not in agg_def and seen < 6:
+            l = copies[l]
+            seen += 1
+        return l
     for b in blocks:
         ns = []
         for st in b['stmts']:
@@ -1805,6 +1834,8 @@ def _flatten_mir(mir, flat):
             if st['k'] == 'assign' and st['lhs']['p'] and st['rv']['k'] == 'use':
                 last = st['lhs']['p'][-1]
                 src = st['rv']['op'].get('move') or st['rv']['op'].get('copy')
+                if src is not None and not src['p']:
+                    src = {'l': origin(src['l']), 'p': []}
                 if isinstance(last, dict) and last.get('ty') in flat and src is not None and not src['p'] and len(agg_def.get(src['l'], [])) == 1:
                     a = agg_def[src['l']][0]['rv']
                     for fname, op in zip(a.get('fields', []), a.get('ops', [])):
@@ -2152,6 +2183,27 @@ def _ty_adt(ty):
     return ty.split('<', 1)[0]
 
 
+def _generic_args(ty):
+    """top-level generic arguments of `a::B<X, Y<Z>>` -> ['X', 'Y<Z>']"""
+    if '<' not in ty or not ty.endswith('>'):
+        return []
+    inner = ty[ty.index('<') + 1:-1]
+    out, depth, cur = [], 0, ''
+    for ch in inner:
+        if ch in '<([':
+            depth += 1
+        elif ch in '>)]':
+            depth -= 1
+        if ch == ',' and depth == 0:
+            out.append(cur.strip())
+            cur = ''
+        else:
+            cur += ch
+    if cur.strip():
+        out.append(cur.strip())
+    return out
+
+
 def provided_forwarder(facts, path):
     """If crate trait method `path` is a provided method whose body only forwards all its parameters, in order, to one method of
     an associated type of Self -- `fn encoder(a, b) -> .. { Self::RateEncoder::new(a, b) }` -- return
@@ -2230,7 +2282,15 @@ def devirt_provided_forwarders(facts):
             return None
         name = cal['decl'].rsplit('::', 1)[1]
         own = [it['path'] for it in tim['items'] if it['name'] == name and it['kind'] == 'Fn']
-        res = (cal['decl'], T, own[0] if own else cal['decl'], cal['trait'], tim.get('trait_ref') or cal['trait'])
+        tref = tim.get('trait_ref') or cal['trait']
+        # the impl is generic (`impl<E> Rate<E> for DefaultRate<E>`), the call may be concrete (`DefaultRate<DefaultEngine>`)
+        ga, gb = _generic_args(im.get('self_ty') or ''), _generic_args(self_ty or '')
+        if ga and len(ga) == len(gb):
+            subs = [(a, b) for a, b in zip(ga, gb) if a != b and re.match(r'^[A-Z]\w*$', a)]
+            if subs:
+                fixd = _subst_types({'ty': T, 'self_ty': tref}, subs)
+                T, tref = fixd['ty'], fixd['self_ty']
+        res = (cal['decl'], T, own[0] if own else cal['decl'], cal['trait'], tref)
         if not own:
             deeper = resolve(cal['decl'], T, depth + 1)
             if deeper:
@@ -2260,6 +2320,208 @@ def devirt_provided_forwarders(facts):
                         nd['path'], nd['self_ty'] = r[2], r[1]
             hir_walk(f.hir, visit)
     facts.devirt = n[0]
+
+
+_TYPE_KEYS = {'ty', 'self_ty', 'recv_ty', 'base_ty', 'scrut_ty', 'to', 'from', 'of', 'output', 'impl_self'}
+
+
+def _subst_types(n, subs):
+    """copy of JSON value n with generic parameter names replaced by concrete types in every type-valued string"""
+    def fix(sv):
+        for a, b in subs:
+            sv = re.sub(r'(?<![\w:])%s(?![\w])' % re.escape(a), lambda m_: b, sv)
+        return sv
+    if isinstance(n, dict):
+        out = {}
+        for k, v in n.items():
+            if isinstance(v, str) and k in _TYPE_KEYS:
+                out[k] = fix(v)
+            elif k in ('inputs', 'decl_args', 'args', 'adt_args') and isinstance(v, list) and all(isinstance(x_, str) for x_ in v):
+                out[k] = [fix(x_) for x_ in v]
+            else:
+                out[k] = _subst_types(v, subs)
+        return out
+    if isinstance(n, list):
+        return [_subst_types(x_, subs) for x_ in n]
+    return n
+
+
+def monomorphise_private_generics(facts):
+    """Crate-private generic code shared between types -- provided methods of a private trait (`trait Butterfly { fn fft_private(&self, ..)
+    { .. self.fft_butterfly_partial(..) .. } }`) or private generic functions (`fn fft<B: Butterfly>(engine: &B, ..)`) -- is analysed
+    the way the compiler builds it: one copy per concrete crate type it is instantiated for, with the calls on the type parameter
+    resolved (the driver records every instance and its resolved callees).  The copy is named by its instance key, belongs to the
+    concrete type, and every call of the generic original with that instantiation is pointed at it (MIR callee and HIR path)."""
+    param_like = lambda a: bool(re.match(r'^[A-Z][A-Za-z0-9]*$', a))
+    ident = {}
+    for k, inst in facts.instances.items():
+        if inst.get('args') and all(param_like(a) for a in inst['args']):
+            ident.setdefault(inst['def'], (k, inst))
+    made = {}
+    for k, inst in sorted(facts.instances.items()):
+        d = inst.get('def')
+        g = facts.fns.get(d)
+        if g is None or k in facts.fns or d not in ident or g.reachable or g.kind not in ('Fn', 'AssocFn') or g.hir is None:
+            continue
+        ik, iinst = ident[d]
+        if k == ik or len(inst['args']) != len(iinst['args']):
+            continue
+        subs = [(a, b) for a, b in zip(iinst['args'], inst['args']) if a != b]
+        conc = [b for a, b in subs if _ty_adt(b) in facts.adts]
+        if not conc:
+            continue
+        # only code that really dispatches on the parameter: some call is unresolved in the generic original
+        if not any(c.get('unresolved') for c in iinst.get('calls', {}).values()):
+            continue
+        x = _subst_types(copy.deepcopy({kk: vv for kk, vv in g.x.items()}), subs)
+        x['path'] = k
+        x['reachable'] = False
+        x['impl_self_adt'] = _ty_adt(conc[0])
+        x['impl_self'] = conc[0]
+        if g.in_trait:
+            x['impl_trait'] = g.in_trait
+            x['in_trait'] = None
+        x['mono_of'] = d
+        for bi, blk in enumerate(x['mir']['blocks']):
+            t = blk['term']
+            if t['k'] == 'call' and str(bi) in inst.get('calls', {}):
+                t['callee'] = dict(inst['calls'][str(bi)])
+        made[k] = x
+    # keep the copies somebody calls: from a function of the program, or from a copy that is kept
+    wanted = set()
+    for f in facts.fns.values():
+        for b, t in f.body.calls():
+            if t['callee'].get('key') in made:
+                wanted.add(t['callee']['key'])
+    work = list(wanted)
+    while work:
+        k = work.pop()
+        for blk in made[k]['mir']['blocks']:
+            t = blk['term']
+            if t['k'] == 'call' and t['callee'].get('key') in made and t['callee']['key'] not in wanted:
+                wanted.add(t['callee']['key'])
+                work.append(t['callee']['key'])
+    made = {k: x for k, x in made.items() if k in wanted}
+    if not made:
+        return 0
+    for k, x in made.items():
+        facts.fns[k] = Fn(facts, x)
+    # point every call of an instantiated generic at its copy
+    for f in list(facts.fns.values()):
+        res = defaultdict(set)
+        for b, t in f.body.calls():
+            cal = t['callee']
+            key = cal.get('key')
+            if key in made and cal.get('path') != key:
+                cal['mono_from'] = cal.get('path')
+                cal['path'] = key
+            if cal.get('decl'):
+                res[cal['decl']].add(cal.get('path'))
+        if f.hir is None:
+            continue
+        uniq = {dcl: list(ps)[0] for dcl, ps in res.items() if len(ps) == 1 and list(ps)[0] != dcl and list(ps)[0] in facts.fns}
+        if not uniq:
+            continue
+
+        def visit(nd, parents):
+            if nd.get('k') in ('mcall', 'path') and nd.get('path') in uniq:
+                nd['mono_from'] = nd['path']
+                nd['path'] = uniq[nd['path']]
+        hir_walk(f.hir, visit)
+    facts._cg = None
+    return len(made)
+
+
+def inline_trivial_constructors(facts):
+    """`WorkRegion::new(base, count)` whose whole body is `Self { base_pos: base, count }` is the struct literal: calls of such
+    private constructors become aggregate assignments (MIR) and struct expressions (HIR), so that the normalisations for private
+    structs built by a literal (parameter splitting, flattening of private aggregates) apply to them as well."""
+    ctors = {}
+    for p, g in facts.fns.items():
+        if g.reachable or g.impl_trait or g.in_trait or g.kind not in ('Fn', 'AssocFn') or not g.hir:
+            continue
+        mir = g.body.mir
+        blocks = [b for b in mir['blocks'] if not b.get('cleanup')]
+        if len(blocks) != 1 or blocks[0]['term']['k'] != 'return':
+            continue
+        sts = [st for st in blocks[0]['stmts'] if st['k'] not in ('storage_live', 'storage_dead', 'nop')]
+        # copies of parameters into temporaries, then one aggregate into _0
+        tmp = {}
+        agg = None
+        ok = True
+        for st in sts:
+            if st['k'] != 'assign' or st['lhs']['p']:
+                ok = False
+                break
+            rv = st['rv']
+            if st['lhs']['l'] == 0 and rv['k'] == 'agg' and rv.get('agg') == 'adt' and agg is None:
+                agg = rv
+            elif rv['k'] == 'use' and op_place(rv['op']) is not None and not op_place(rv['op'])['p'] and 1 <= op_place(rv['op'])['l'] <= mir['arg_count'] and agg is None:
+                tmp[st['lhs']['l']] = op_place(rv['op'])['l']
+            else:
+                ok = False
+                break
+        if not ok or agg is None or _ty_adt(mir['locals'][0]['ty']) != agg.get('adt') or agg.get('adt') not in facts.adts or facts.adts[agg['adt']].get('reachable'):
+            continue
+        srcs = []
+        for o in agg['ops']:
+            if 'const' in o:
+                srcs.append(('const', o))
+                continue
+            pl = op_place(o)
+            if pl is None or pl['p']:
+                srcs = None
+                break
+            l = tmp.get(pl['l'], pl['l'])
+            if not (1 <= l <= mir['arg_count']):
+                srcs = None
+                break
+            srcs.append(('arg', l - 1))
+        if srcs is None or sorted(x[1] for x in srcs if x[0] == 'arg') != list(range(mir['arg_count'])):
+            continue        # every parameter is used exactly once (nothing is dropped or duplicated)
+        ctors[p] = (agg, srcs)
+    if not ctors:
+        return 0
+    n = 0
+    for f in list(facts.fns.values()):
+        mir = f.body.mir
+        changed = False
+        for blk in mir['blocks']:
+            t = blk['term']
+            if t['k'] != 'call' or t.get('target') is None or (t['callee'].get('path') not in ctors) or f.path == t['callee'].get('path'):
+                continue
+            agg, srcs = ctors[t['callee']['path']]
+            ops = [(x[1] if x[0] == 'const' else t['args'][x[1]]) for x in srcs]
+            rv = dict(agg)
+            rv['ops'] = ops
+            blk['stmts'] = list(blk['stmts']) + [{'k': 'assign', 'lhs': t['dest'], 'rv': rv, 'line': t['line'], 'exp': False, 'modelled': 'constructor'}]
+            blk['term'] = {'k': 'goto', 'target': t['target'], 'line': t['line'], 'exp': False}
+            changed = True
+            n += 1
+        if changed:
+            f.body = Body(facts, mir, f.path)
+        if f.hir:
+            def rec(nd):
+                if isinstance(nd, list):
+                    return [rec(x) for x in nd]
+                if not isinstance(nd, dict):
+                    return nd
+                out = {k: (rec(v) if isinstance(v, (dict, list)) else v) for k, v in nd.items()}
+                if out.get('k') == 'call' and isinstance(out.get('f'), dict) and out['f'].get('k') == 'path' and out['f'].get('path') in ctors:
+                    agg, srcs = ctors[out['f']['path']]
+                    g = facts.fns[out['f']['path']]
+                    if len(out['args']) == g.body.mir['arg_count']:
+                        flds = []
+                        for name, x in zip(agg.get('fields', []), srcs):
+                            e = out['args'][x[1]] if x[0] == 'arg' else {'k': 'lit', 'int': x[1]['const'].get('val'), 'ty': x[1]['const'].get('ty')}
+                            flds.append({'name': name, 'e': e})
+                        return {'k': 'struct', 'path': {'res': 'def', 'def_kind': 'Struct', 'path': agg['adt'], 'local': True}, 'adt': agg['adt'], 'fields': flds,
+                                'ty': out.get('ty'), 'line': out.get('line'), 'modelled': 'constructor'}
+                return out
+            f.hir = rec(f.hir)
+            f.x['hir'] = f.hir
+    facts._cg = None
+    return n
 
 
 # --------------------------------------------------------------------------- private parameter structs
